@@ -52,69 +52,21 @@ Definition chk_agg_fw (c : agg_case) : bool :=
   match ag_obs c with Some o => ocmp (is_root (ag_op c)) o (agg_fw (ag_fw c) (ag_op c) (ag_col c)) | None => false end.
 
 (* ---- imputation ---- *)
-(* im_int: the source column is an integer column; im_num: it holds numbers (not strings); im_tuple: group_by_features was given as a tuple *)
+(* im_int: the source column is an integer column; im_num: it holds numbers (not strings); im_tuple: group_by_features
+   was given as a tuple.  None of them influences the expected result any more (the deviations they selected are
+   repaired); they are kept as a description of the input. *)
 Record imp_case := { im_fw : fwk; im_m : imethod; im_int : bool; im_num : bool; im_keys : option (list key); im_tuple : bool;
                      im_col : col; im_obs : option col }.
 Definition imp_expected (c : imp_case) : col :=
   match im_keys c with None => impute_spec (im_m c) (im_col c) | Some ks => impute_grouped_spec (im_m c) ks (im_col c) end.
 Definition chk_imp_spec (c : imp_case) : bool := obs_cmp false (im_obs c) (Some (imp_expected c)).
-
-Definition is_const (m : imethod) : bool := match m with IConst _ => true | _ => false end.
-Definition is_fill (m : imethod) : bool := match m with IFfill | IBfill => true | _ => false end.
-(* some row has a null cell AND a null in its key: pyarrow's group selection is empty for it *)
-Definition pa_empty_group (ks : list key) (v : col) : bool :=
-  existsb (fun p => key_has_null (fst p) && match snd p with None => true | Some _ => false end) (combine ks v).
-
-Definition bools : list bool := [true; false].
-Definition pdconvs : list pdconv :=
-  flat_map (fun a => flat_map (fun b => flat_map (fun c => map (fun d =>
-    {| pd_tie := a; pd_nofb := b; pd_nk := c; pd_tuple := d |}) bools) bools) bools) bools.
-Definition paconvs : list paconv :=
-  flat_map (fun a => flat_map (fun b => flat_map (fun c => flat_map (fun d => map (fun e =>
-    {| pa_modenull := a; pa_trunc := b; pa_fillidx := c; pa_nk := d; pa_crash := e |}) bools) bools) bools) bools) bools.
-
-Definition imp_pd (cv : pdconv) (c : imp_case) : option col :=
-  let m := im_m c in let v := im_col c in
-  match im_keys c with
-  | None => Some (pd_ungrouped_cv cv m v)
-  | Some ks => if is_const m then Some (impute_spec m v)
-               else if im_tuple c && pd_tuple cv then None          (* data.groupby(("g",)) raises KeyError *)
-               else Some (pd_grouped_cv cv m ks v)
+(* PythonDict: the faithful model of python_dict.py; pandas / pyarrow: no recorded deviation is left, the spec itself *)
+Definition imp_fw (c : imp_case) : col :=
+  match im_fw c with
+  | FwPy => py_perform_imputation (im_m c) (im_keys c) (im_col c)
+  | _ => imp_expected c
   end.
-Definition imp_pa (cv : paconv) (c : imp_case) : option col :=
-  let m := im_m c in let v := im_col c in
-  match im_keys c with
-  | None => Some (pa_ungrouped_cv cv (im_int c) m v)
-  | Some ks => if is_const m then Some (if im_int c && pa_trunc cv then impute_pa_int m v else impute_spec m v)
-               else if pa_crash cv && pa_nk cv && is_fill m && pa_empty_group ks v then None  (* indices_nonzero(<0 chunks>) *)
-               else Some (pa_grouped_cv cv m ks v)
-  end.
-(* the outcomes a framework may show: every combination of "deviation present" / "deviation repaired";
-   PythonDict: the faithful model (strings: raises) or the same code on a numeric column *)
-Definition imp_fw_all (c : imp_case) : list (option col) :=
-  if negb (has_null (im_col c)) then [Some (im_col c)]
-  else match im_fw c with
-       | FwPy => [py_perform_imputation (im_num c) (im_m c) (im_keys c) (im_col c);
-                  py_perform_imputation true (im_m c) (im_keys c) (im_col c)]
-       | FwPd => map (fun cv => imp_pd cv c) pdconvs
-       | FwPa => map (fun cv => imp_pa cv c) paconvs
-       end.
-Definition chk_imp_fw (c : imp_case) : bool := existsb (fun e => obs_cmp false (im_obs c) e) (imp_fw_all c).
-(* can the observation be explained with deviation number `flag` repaired?  (used to attribute a case that lies in
-   several known-finding domains to the deviations that are really needed to explain it) *)
-Definition pdflag (n : nat) (cv : pdconv) : bool :=
-  match n with 0 => pd_tie cv | 1 => pd_nofb cv | 2 => pd_nk cv | 3 => pd_tuple cv | _ => false end%nat.
-Definition paflag (n : nat) (cv : paconv) : bool :=
-  match n with 0 => pa_modenull cv | 1 => pa_trunc cv | 2 => pa_fillidx cv | 3 => pa_nk cv | 4 => pa_crash cv | _ => false end%nat.
-Definition imp_fw_without (flag : nat) (c : imp_case) : list (option col) :=
-  if negb (has_null (im_col c)) then [Some (im_col c)]
-  else match im_fw c with
-       | FwPy => [py_perform_imputation true (im_m c) (im_keys c) (im_col c)]
-       | FwPd => map (fun cv => imp_pd cv c) (filter (fun cv => negb (pdflag flag cv)) pdconvs)
-       | FwPa => map (fun cv => imp_pa cv c) (filter (fun cv => negb (paflag flag cv)) paconvs)
-       end.
-Definition chk_imp_without (flag : nat) (c : imp_case) : bool :=
-  existsb (fun e => obs_cmp false (im_obs c) e) (imp_fw_without flag c).
+Definition chk_imp_fw (c : imp_case) : bool := obs_cmp false (im_obs c) (Some (imp_fw c)).
 
 (* ---- time windows ---- *)
 Record win_case := { wi_fw : fwk; wi_op : wop; wi_size : nat; wi_times : list Z; wi_col : col;
@@ -124,7 +76,7 @@ Definition chk_win_spec (c : win_case) : bool :=
 Definition win_fw (c : win_case) : list (option Q) :=
   match wi_fw c with
   | FwPa => window_pa (wi_op c) (wi_size c) (wi_times c) (wi_col c)
-  | FwPd => window_pd (wi_op c) (wi_size c) (wi_times c) (wi_col c)
+  | FwPd => window_spec (wi_op c) (wi_size c) (wi_times c) (wi_col c)
   | FwPy => window_spec (wi_op c) (wi_size c) (wi_times c) (wi_col c)
   end.
 Definition chk_win_fw (c : win_case) : bool := obs_cmp (wop_is_root (wi_op c)) (wi_obs c) (Some (win_fw c)).
@@ -144,19 +96,15 @@ Record clean_case := { cl_fw : fwk; cl_ops : list cleanop; cl_texts : list (opti
                        cl_obs : option (list (option text)) }.
 Definition chk_clean_spec (c : clean_case) : bool :=
   tobs_eqb (cl_obs c) (Some (map (fun x => Some (clean_cell (cl_ops c) x)) (cl_texts c))).
-Definition raising_op (o : cleanop) : bool := match o with CNormalize | CPunct => true | _ => false end.
-(* re2: RE2 white-space class; tnull: a null cell stays null / makes normalize, remove_punctuation raise *)
-Definition clean_pd (re2 tnull : bool) (c : clean_case) : option (list (option text)) :=
-  let has_none := existsb (fun x => match x with None => true | Some _ => false end) (cl_texts c) in
-  let one := fun s => if re2 then pd_clean (cl_ops c) s else py_clean (cl_ops c) (Some s) in
-  if tnull && has_none && existsb raising_op (cl_ops c) then None
-  else Some (map (fun x => match x with
-                           | None => if tnull then None else Some (py_clean (cl_ops c) None)
-                           | Some s => Some (one s)
-                           end) (cl_texts c)).
+(* pandas: a null cell is the empty text (repaired); re2 = the RE2 white-space class is still in effect *)
+Definition clean_pd (re2 : bool) (c : clean_case) : option (list (option text)) :=
+  Some (map (fun x => match x with
+                      | None => Some (py_clean (cl_ops c) None)
+                      | Some s => Some (if re2 then pd_clean (cl_ops c) s else py_clean (cl_ops c) (Some s))
+                      end) (cl_texts c)).
 Definition clean_fw_all (c : clean_case) : list (option (list (option text))) :=
   match cl_fw c with
-  | FwPd => flat_map (fun a => map (fun b => clean_pd a b c) bools) bools
+  | FwPd => [clean_pd true c; clean_pd false c]
   | _ => [Some (map (fun x => Some (py_clean (cl_ops c) x)) (cl_texts c))]
   end.
 Definition chk_clean_fw (c : clean_case) : bool := existsb (fun e => tobs_eqb (cl_obs c) e) (clean_fw_all c).
@@ -165,13 +113,3 @@ Definition chk_clean_fw (c : clean_case) : bool := existsb (fun e => tobs_eqb (c
 Definition q (n : Z) (d : positive) : Q := Qmake n d.
 Definition sq (n : Z) (d : positive) : cell := Some (Qmake n d).
 Definition zk (z : Z) : option Z := Some z.
-Definition chk_clean_without (flag : nat) (c : clean_case) : bool :=
-  match cl_fw c with
-  | FwPd => existsb (fun e => tobs_eqb (cl_obs c) e)
-              (match flag with
-               | O => map (fun b => clean_pd false b c) bools
-               | _ => map (fun a => clean_pd a false c) bools
-               end)
-  | _ => chk_clean_fw c
-  end.
-
